@@ -291,22 +291,17 @@ fn varg(raw: u16, class: u8, n: usize) -> usize {
     }
 }
 
-pub fn program_strategy() -> BoxedStrategy<Program> {
-    let call = (
-        0..100_u8,
-        (any::<u16>(), any::<u8>(), any::<u16>(), any::<u8>()),
-        (any::<u8>(), any::<u8>(), any::<u8>()),
-        vec((any::<u16>(), any::<u8>()), 0..4),
-        any::<i64>(),
-    );
-    (
-        0..6_u8,
-        1..=8_usize,
-        vec(((any::<u16>(), any::<u16>()), -50..50_i64), 0..=16),
-        any::<u8>(),
-        vec(call, 1..=6),
-    )
-        .prop_map(|(repr, n, raw_arcs, mapclass, raw_calls)| {
+pub type RawCall = (u8, (u16, u8, u16, u8), (u8, u8, u8), Vec<(u16, u8)>, i64);
+
+/// The single mapping from raw random values to a program, shared by the
+/// proptest strategy and the libFuzzer byte decoder.
+pub fn program_from_raw(
+    repr: u8,
+    n: usize,
+    raw_arcs: Vec<((u16, u16), i64)>,
+    mapclass: u8,
+    raw_calls: Vec<RawCall>,
+) -> Program {
             let mut arcs: Vec<(usize, usize, i64)> = vec![];
             if n >= 2 {
                 for &(p, w) in &raw_arcs {
@@ -381,8 +376,49 @@ pub fn program_strategy() -> BoxedStrategy<Program> {
                 })
                 .collect();
             Program { base, calls }
-        })
+}
+
+pub fn program_strategy() -> BoxedStrategy<Program> {
+    let call = (
+        0..100_u8,
+        (any::<u16>(), any::<u8>(), any::<u16>(), any::<u8>()),
+        (any::<u8>(), any::<u8>(), any::<u8>()),
+        vec((any::<u16>(), any::<u8>()), 0..4),
+        any::<i64>(),
+    );
+    (
+        0..6_u8,
+        1..=8_usize,
+        vec(((any::<u16>(), any::<u16>()), -50..50_i64), 0..=16),
+        any::<u8>(),
+        vec(call, 1..=6),
+    )
+        .prop_map(|(repr, n, raw_arcs, mapclass, raw_calls)| program_from_raw(repr, n, raw_arcs, mapclass, raw_calls))
         .boxed()
+}
+
+/// Decodes a libFuzzer input into a program (total: every byte string maps
+/// to some program).
+pub fn program_from_bytes(data: &[u8]) -> Program {
+    let mut b = crate::bytes::Bytes::new(data);
+    let repr = b.u8() % 6;
+    let n = 1 + (b.u8() as usize % 8);
+    let mapclass = b.u8();
+    let narcs = b.count(16);
+    let raw_arcs = (0..narcs).map(|_| ((b.u16(), b.u16()), i64::from(b.u8()) - 50)).collect();
+    let ncalls = 1 + b.count(5);
+    let raw_calls = (0..ncalls)
+        .map(|_| {
+            let k = b.u8() % 100;
+            let a = (b.u16(), b.u8(), b.u16(), b.u8());
+            let x = (b.u8(), b.u8(), b.u8());
+            let nl = b.count(3);
+            let list = (0..nl).map(|_| (b.u16(), b.u8())).collect();
+            let w = if b.u8() % 4 == 0 { b.i64() } else { i64::from(b.u8()) - 100 };
+            (k, a, x, list, w)
+        })
+        .collect();
+    program_from_raw(repr, n, raw_arcs, mapclass, raw_calls)
 }
 
 // ---------------------------------------------------------------------------
